@@ -50,6 +50,13 @@ pub fn exec_op2(sim: &Sim, op: &Op, _in_cb: bool) {
         Op::InsertExecutor { id, script } => crate::exec::insert_executor(sim, *id, script),
         Op::Schedule { exec, task, pendings, script } => crate::exec::schedule(sim, *exec, *task, *pendings, script),
         Op::Wake(t) => crate::exec::wake(sim, *t),
+        Op::ManyPings { base, n } => {
+            for i in 0..*n {
+                crate::ops::exec_op(sim, &Op::InsertPing { id: base + i, script: vec![] }, _in_cb);
+                crate::ops::exec_op(sim, &Op::Ping(base + i), _in_cb);
+            }
+            sim.probe("many_pings");
+        }
         Op::ScheduleTimeout { exec, task, dl } => crate::exec::schedule_timeout(sim, *exec, *task, *dl),
         Op::SlotChurn(n) => slot_churn(sim, *n),
         Op::InsertComposite { id, children, script } => crate::composite::insert_composite(sim, *id, children, script),
